@@ -190,8 +190,9 @@ def cmdDask (a : Args) : String :=
   | .ok s => s
   | .error e => e
 
-def showCT (pct : Bool) (t : CTable R R Nat) : String :=
-  let f : CTable R R (Option R) := t.finish pct
+def showCT (pct : Bool) (t : CTable R R Nat) (e : PExpr := Gen.Zonal.pctNumpy) : String :=
+  -- percentages through the expression translated from the source, counts in the width of the breaks
+  let f : CTable R R (Option R) := t.finishSrc e Gen.Zonal.stridesBits pct
   s!"zone={showXs f.zone};cats={showXs f.cats};total={showNs f.total};rows=" ++
     "|".intercalate (f.rows.map showOs)
 
@@ -229,7 +230,7 @@ def cmdXtabDask (a : Args) : String :=
     match crosstabDask2d (flag a "d1" Gen.Zonal.stripIndices) (flag a "d3" Gen.Zonal.catStartAlways)
         (flag a "d4" Gen.Zonal.rowsSortedDask) zf (fnOf inp.values) (validX inp.nodata) cells
         inp.zoneIds inp.catIds blocks with
-    | some t => return showCT pct t
+    | some t => return showCT pct t Gen.Zonal.pctDask
     | none => .error "err:raises" : Except String String) with
   | .ok s => s
   | .error e => e
@@ -304,6 +305,29 @@ def cmdXtab3Dask (a : Args) : String :=
   | .ok s => s
   | .error e => e
 
+/-- `xpct total=T n=N backend=numpy|dask` : one `percentage` entry through the source's expression
+    (used for rasters far too large to send: the harness sends the counts it took from a histogram) -/
+def cmdPct (a : Args) : String :=
+  match a.nat? "total", a.nat? "n" with
+  | some t, some n =>
+    let e := if a.get? "backend" == some "dask" then Gen.Zonal.pctDask else Gen.Zonal.pctNumpy
+    showO (pctCell e Gen.Zonal.stridesBits t n : Option R)
+  | _, _ => "bad-request"
+
+/-- `zstrides fz=v,v,.. uz=v,v,..` : the loop program translated from `_strides` (`Gen.Zonal.stridesProg`), run by
+    the interpreter of Model/ZonalLoop.lean on two arrays of finite numbers (`-` = empty); the model's `strides`
+    is printed next to it -/
+def cmdStrides (a : Args) : String :=
+  let lst := fun (k : String) => match a.get? k with
+    | some "-" => some []
+    | _ => (a.nums? k).map (fun l => l.filterMap (fun n => (toX n).toFin?))
+  match lst "fz", lst "uz" with
+  | some fz, some uz =>
+    let arrs : String → List R := fun nm => if nm = "a0" then fz else if nm = "a1" then uz else []
+    let got := Gen.Zonal.stridesProg.run arrs (fz.length + 1)
+    s!"ok={if Gen.Zonal.stridesProg.ok then 1 else 0};prog={showNs got};model={showNs (strides fz 0 uz)}"
+  | _, _ => "bad-request"
+
 /-- `zfacts` : the structural facts the model is run with -/
 def cmdFacts (_ : Args) : String :=
   let b := fun (x : Bool) => if x then "1" else "0"
@@ -316,6 +340,6 @@ def cmdFacts (_ : Args) : String :=
 
 def handlers : List (String × (Args → String)) :=
   [("zstats", cmdStats), ("zraster", cmdRaster), ("zdask", cmdDask), ("xtab", cmdXtab),
-   ("xtabdask", cmdXtabDask), ("xtab3", cmdXtab3), ("xtab3dask", cmdXtab3Dask), ("zfacts", cmdFacts)]
+   ("xtabdask", cmdXtabDask), ("xtab3", cmdXtab3), ("xtab3dask", cmdXtab3Dask), ("xpct", cmdPct), ("zstrides", cmdStrides), ("zfacts", cmdFacts)]
 
 end XrsVerif.Driver.ZonalCmd
